@@ -7,4 +7,4 @@ Extraction "../ocaml/gen/ModelC08.ml"
   observe12_sm4 observe13_sm4 sm4_rk_bytes
   tls_prf prf_spec hkdf_expand_label derive_secret hkdf_extract13 verify_data13
   master_secret12 key_block12 client_finished12 server_finished12
-  send1 recv1 write_all dir_init max_plain cap13 chan rbuf sseq rseq.
+  send1 recv1 write_all dsend dwrite drecv duplex_init c2s s2c dir_init max_plain cap13 chan rbuf sseq rseq.
